@@ -46,7 +46,9 @@ class CSSReader(BaseDocumentDetector, BaseTextStreamReader):
         peeked_data = wpull.string.printable_bytes(
             wpull.util.peek_file(file)).lower()
 
-        if b'<html' in peeked_data:
+        # "<html" is optional in HTML. Other tags show a HTML document too.
+        if re.search(br'<html|<!doctype html|<head|<body|<title|<meta\s|<a\s',
+                     peeked_data):
             return VeryFalse
 
         if re.search(br'@import |color:|background[a-z-]*:|font[a-z-]*:',
